@@ -164,7 +164,7 @@ func (p *service) processIncoming(msg message.Message) error {
 
 	case *message.DisconnectMessage:
 		// For DISCONNECT message, we should quit
-		p.sess.Cmsg.SetWillFlag(false)
+		p.sess.DiscardWill()
 		return errDisconnect
 
 	default:
